@@ -182,12 +182,8 @@ func (keeper Keeper) GetMinDepositAmountFromProposalMsgs(ctx context.Context, de
 		minDepositCoins[i].Amount = sdkmath.LegacyNewDecFromInt(minDepositCoins[i].Amount).Mul(minDepositRatio).RoundInt()
 	}
 
-	// If the egf deposit amount is less than the default amount, the default amount is used
-	if minDepositCoins.IsAllLT(defaultMinDeposit) {
-		return defaultMinDeposit, nil
-	}
-
-	return minDepositCoins, nil
+	// For every denom the larger of the egf deposit amount and the default amount is used
+	return minDepositCoins.Max(defaultMinDeposit), nil
 }
 
 // validateInitialDeposit validates if initial deposit is greater than or equal to the minimum
